@@ -179,3 +179,14 @@ class OptimizeResult(dict):
             raise ValueError("""The key is not part of OptimizeResult._keys""")
         else:
             dict.__setitem__(self, key, copy.deepcopy(val))
+
+    def update(self, *args, **kwargs):
+        # (dict.update and dict.setdefault bypass __setitem__: route them
+        # through it, so that unknown keys are rejected and values copied)
+        for key, val in dict(*args, **kwargs).items():
+            self[key] = val
+
+    def setdefault(self, key: str, default: object = None):
+        if key not in self:
+            self[key] = default
+        return self[key]
